@@ -127,9 +127,12 @@ class Morphy:
         if not self._initialized:
             result[pos] = {form}  # always include original when not initialized
 
+        # when initialized, the lemmas and exceptional forms of every part
+        # of speech are known, also of those without detachment rules
+        handled = self._all_lemmas if self._initialized else DETACHMENT_RULES
         if pos is None:
-            pos_list = list(DETACHMENT_RULES)
-        elif pos in DETACHMENT_RULES:
+            pos_list = list(handled)
+        elif pos in handled:
             pos_list = [pos]
         else:
             pos_list = []  # not handled by morphy
@@ -154,7 +157,7 @@ class Morphy:
         else:
             all_lemmas = set()
 
-        for suffix, repl, _ in self._rules[pos]:
+        for suffix, repl, _ in self._rules.get(pos, []):
             # avoid applying rules that perform full suppletion
             if form.endswith(suffix) and len(suffix) < len(form):
                 candidate = f'{form[:-len(suffix)]}{repl}'
